@@ -257,6 +257,11 @@ func (g *Gen) freshReportOp() Op {
 			if a, ok := m.Reps[rid]; ok && a != addr {
 				continue
 			}
+			if g.R.Intn(6) == 0 {
+				// replacement members get full 64-bit random ids: a stray replica can carry one (beyond 2^53, where a float64
+				// no longer holds every integer)
+				rid = 1<<63 + 1<<53 + uint64(100*int(s)+1+g.R.Intn(7))
+			}
 		}
 		ids = append(ids, s)
 		info := Info{S: s, R: rid, Leader: g.R.Intn(4) == 0, Cci: m.Ver}
